@@ -53,7 +53,7 @@ theorem foldl_set_length (n : Nat) (g f : Nat → Nat) (init : List Nat) :
   have e : (List.range n).foldl (fun acc i => acc.set (g i) (f i)) init =
       scatterFold init ((List.range n).map (fun i => (f i, g i))) := by
     simp [scatterFold, List.foldl_map]
-  rw [e, scatterFold_length]
+  rw [e, la_scatterFold_length]
 
 /-- `tmp = at(r, p); at(r, p) = at(r, p-1); at(r, p-1) = tmp` -/
 def swapAt (acc : List Nat) (p : Nat) : List Nat := (acc.set p (acc.getD (p - 1) 0)).set (p - 1) (acc.getD p 0)
@@ -628,7 +628,7 @@ theorem kron_scatter_le (l : Nat) (yl u v : List Nat) (hu : u.length = l) (hv : 
         have : k - l - yl.length = k - (yl.length + l) := by omega
         rw [this]
         exact (List.getElem?_eq_getElem (by omega)).symm
-  · rw [List.getElem?_eq_none (by rw [scatter_length]; simp [hil]; omega),
+  · rw [List.getElem?_eq_none (by rw [la_scatter_length]; simp [hil]; omega),
         List.getElem?_eq_none (by simp [hu, hv]; omega)]
 
 theorem zipWith_mul_ones_left (s : List Nat) : List.zipWith (· * ·) (List.replicate s.length 1) s = s := by
@@ -794,7 +794,7 @@ theorem kron_scatter_gt (r : Nat) (yl u v : List Nat) (hu : u.length = r) (hv : 
         have : k - (yl ++ u).length = k - (yl.length + r) := by simp [hu]
         rw [this]
         exact (List.getElem?_eq_getElem (by omega)).symm
-  · rw [List.getElem?_eq_none (by rw [scatter_length]; simp [hil]; omega),
+  · rw [List.getElem?_eq_none (by rw [la_scatter_length]; simp [hil]; omega),
         List.getElem?_eq_none (by simp [hu, hv]; omega)]
 
 theorem kronDstReshape_gt (La Ra sb : List Nat) (h : Ra.length = sb.length) :
